@@ -48,6 +48,8 @@ type vConn struct {
 	blockAtEOF bool
 	woken      bool
 	wake       chan struct{}
+	delay      time.Duration // the scripted bytes arrive this long after the first read
+	delayed    bool
 }
 
 var errVConnClosed = errors.New("use of closed network connection")
@@ -61,6 +63,25 @@ func (c *vConn) Read(b []byte) (int, error) {
 	if c.closed {
 		c.mu.Unlock()
 		return 0, errVConnClosed
+	}
+	if c.delay > 0 && !c.delayed && c.pos < len(c.in) {
+		c.delayed = true
+		if c.wake == nil {
+			c.wake = make(chan struct{})
+		}
+		w := c.wake
+		c.mu.Unlock()
+		select {
+		case <-time.After(c.delay):
+		case <-w:
+			c.mu.Lock()
+			defer c.mu.Unlock()
+			if c.closed {
+				return 0, errVConnClosed
+			}
+			return 0, os.ErrDeadlineExceeded
+		}
+		c.mu.Lock()
 	}
 	if c.pos < len(c.in) {
 		n := copy(b, c.in[c.pos:])
@@ -224,6 +245,8 @@ func vEstablished(s *BgpServer, c *oc.Neighbor, families []bgp.Family) *peer {
 	}
 	open, _ := bgp.NewBGPOpenMessage(my, 90, c.State.RemoteRouterId, []bgp.OptionParameterInterface{bgp.NewOptionParameterCapability(caps)})
 	p.fsm.recvOpen, p.fsm.conn = open, newVConn(nil, true)
+	// no state-machine goroutine runs for fixture peers: stopping one only cancels this context
+	p.fsm.h = &fsmHandler{fsm: p.fsm, ctxCancel: func() {}}
 	return p
 }
 
